@@ -535,11 +535,13 @@ class TimeParameterType(ParameterType, metaclass=ABCMeta):
         if self.unit is not None:
             encoding_attrib["units"] = self.unit
 
-        if self.encoding.default_calibrator:
-            if not isinstance(self.encoding.default_calibrator, calibrators.PolynomialCalibrator):
-                raise ValueError("Expected to get a PolynomialCalibrator for TimeParameterType but "
-                                 f"got {self.encoding.default_calibrator}")
-            coefficients = self.encoding.default_calibrator.coefficients
+        default_calibrator = self.encoding.default_calibrator
+        # scale and offset stand for a linear calibrator, which is what loading turns them back into (and what
+        # then replaces the data encoding's own default calibrator); any other calibrator is written by the
+        # data encoding alone
+        if (isinstance(default_calibrator, calibrators.PolynomialCalibrator)
+                and sorted(c.exponent for c in default_calibrator.coefficients) in ([1], [0, 1])):
+            coefficients = default_calibrator.coefficients
             scale = [c.coefficient for c in coefficients if c.exponent == 1]
             offset = [c.coefficient for c in coefficients if c.exponent == 0]
 
